@@ -174,7 +174,7 @@ def msg_def(rng, did):
         if rng.random() < 0.6:
             v["msg"] = [cp(rng.choice(MSGS))]
         if rng.random() < 0.4:
-            v["dmsg"] = [cp(rng.choice(MSGS) + "!")]
+            v["dmsg"] = [cp(rng.choice(MSGS) + rng.choice(["!", "!", ""]))]
         v["docs"] = [cp(rng.choice(DOC_LINES)) for _ in range(rng.choice([0, 0, 1, 1, 2, 3, 4]))]
         if rng.random() < 0.3:
             v["docattrs"] = [(rng.randrange(len(v["docs"]) + 1), rng.choice(["#[doc(hidden)]", '#[doc(alias = "nick")]']))]
@@ -192,8 +192,20 @@ def msg_special(did, k):
         [variant("Low", msg="l", dmsg="ld", docs=[" low"]), variant("Internal", dis=True, msg="i", dmsg="id", docs=[" internal"]), variant("High", msg="h", dmsg="hd", docs=[" high"])],
         [variant("Kilo", ser=["kB", "KB", "kilobyte"], aci=1), variant("Mega", ser=["mb"], ts="MB", aci=1, acif=1), variant("Giga", ser=["gb", "GB!"], aci=0)],
         [variant("Block", docs=[" first\nsecond"]), variant("Block2", docs=[" a\n b\n"]), variant("Two", docs=[" x\ny", " z"]), variant("Plain", docs=[" one"])],
+        # an attribute that is present but empty is not an absent attribute
+        [variant("Short", msg="short", dmsg=""), variant("OnlyDetail", dmsg=""), variant("EmptyMsg", msg=""), variant("EmptyBoth", msg="", dmsg=""),
+         variant("EmptySer", ser=[""]), variant("EmptyDoc", docs=[""])],
+        # generic parameters with defaults (a default is written on the enum, never on an impl)
+        ([variant("Slot", "tuple", [field("T")], msg="slot", dmsg=""), variant("Empty", dmsg="e", docs=[" d"]), variant("Off", "tuple", [field("T")], dis=True, msg="off")],
+         dict(generics="tydef")),
+        ([variant("Buf", "tuple", [field("arr")], msg="buf"), variant("Nil", docs=[" nil"])], dict(generics="constdef")),
+        ([variant("Both", "named", [field("T", "t"), field("arr", "a")], dmsg="both"), variant("Nil", msg="")], dict(generics="tyconst")),
     ]
-    return enum(did, shapes[k % len(shapes)])
+    sh = shapes[k % len(shapes)]
+    return enum(did, sh[0], **sh[1]) if isinstance(sh, tuple) else enum(did, sh)
+
+
+MSG_SPECIALS = 11
 
 
 def msg_module(E):
@@ -208,6 +220,14 @@ def msg_module(E):
                  "            use strum::EnumMessage;",
                  '            o.line(&format!("{{\\"op\\":\\"msg\\",\\"def\\":%d,\\"i\\":%d,\\"message\\":{},\\"detail\\":{},\\"doc\\":{},\\"sers\\":{}}}", jopt_cps(EnumMessage::get_message(&x)), jopt_cps(EnumMessage::get_detailed_message(&x)), jopt_cps(EnumMessage::get_documentation(&x)), jstrs(EnumMessage::get_serializations(&x))));' % (did, k),
                  "        });", SG._ev_panic(did, k), "    }"]
+        if E["id"] % 2 == 0:
+            # the same getters with method-call syntax through receivers of type `&&E` and `&mut E`
+            body += ["    {", "        let r = catch(|| {", "            let mut x = %s;" % D.ctor(E, v, 1),
+                     "            use strum::EnumMessage;",
+                     "            let (m, d) = { let rr = &&x; (jopt_cps(rr.get_message()), jopt_cps(rr.get_detailed_message())) };",
+                     "            let (c, s) = { let mm = &mut x; (jopt_cps(mm.get_documentation()), jstrs(mm.get_serializations())) };",
+                     '            o.line(&format!("{{\\"op\\":\\"msg\\",\\"def\\":%d,\\"i\\":%d,\\"message\\":{},\\"detail\\":{},\\"doc\\":{},\\"sers\\":{}}}", m, d, c, s));' % (did, k),
+                     "        });", SG._ev_panic(did, k), "    }"]
     src += IG.RUN + "\n".join(body) + "\n}\n"
     return src
 
@@ -304,5 +324,14 @@ def prop_module(E, rng):
                  "            let bools: Vec<String> = keys.iter().map(|q| match EnumProperty::get_bool(&x, q) { Some(b) => format!(\"[[{}]]\", b as u8), None => \"[]\".to_string() }).collect();",
                  '            o.line(&format!("{{\\"op\\":\\"prop\\",\\"def\\":%d,\\"i\\":%d,\\"keys\\":{},\\"strs\\":{},\\"ints\\":{},\\"bools\\":{}}}", jstrs(&keys), jlist(&strs), jlist(&ints), jlist(&bools)));' % (did, k),
                  "        });", SG._ev_panic(did, k), "    }"]
+        if E["id"] % 2 == 0:
+            # the same questions asked with method-call syntax through receivers of type `&&E` (the parameter of `iter().filter(|v| ..)`) and
+            # `&mut E`: whatever implementation the call resolves to, the answers are those of the variant
+            body += ["    {", "        let r = catch(|| {", "            let mut x = %s;" % D.ctor(E, v, 1), "            use strum::EnumProperty;",
+                     "            let strs: Vec<String> = { let rr = &&x; keys.iter().map(|q| jopt_cps(rr.get_str(q))).collect() };",
+                     "            let bools: Vec<String> = { let rr = &&x; keys.iter().map(|q| match rr.get_bool(q) { Some(b) => format!(\"[[{}]]\", b as u8), None => \"[]\".to_string() }).collect() };",
+                     "            let ints: Vec<String> = { let m = &mut x; keys.iter().map(|q| match m.get_int(q) { Some(n) => format!(\"[{}]\", jcps(&n.to_string())), None => \"[]\".to_string() }).collect() };",
+                     '            o.line(&format!("{{\\"op\\":\\"prop\\",\\"def\\":%d,\\"i\\":%d,\\"keys\\":{},\\"strs\\":{},\\"ints\\":{},\\"bools\\":{}}}", jstrs(&keys), jlist(&strs), jlist(&ints), jlist(&bools)));' % (did, k),
+                     "        });", SG._ev_panic(did, k), "    }"]
     src += IG.RUN + "\n".join(body) + "\n}\n"
     return src
